@@ -66,6 +66,7 @@ register_descriptor! {
 
 fn set_element_of_fxn(elem: Value, set: Value) -> MResult<Box<dyn MechFunction>> {
   match (elem, set) {
+    (Value::MutableReference(elem), set) => set_element_of_fxn(elem.borrow().clone(), set),
     (elem, Value::Set(set)) => {
       Ok(Box::new(SetElementOfFxn { elem: Ref::new(elem.clone()), set: set.clone(), out: Ref::new(false) }))
     },
